@@ -909,38 +909,51 @@ func (rles *RLEs) UnmarshalBinaryReader(r io.Reader, numRLEs uint32) error {
 // TODO: If this is a bottleneck, employ better than this brute force insertion method.
 func (rles *RLEs) Add(rles2 RLEs) (voxelsAdded int64) {
 	for _, rle2 := range rles2 {
-		var found bool
-		for i, rle := range *rles {
-			// If this rle has same z and y, modify the RLE, else just add rle.
+		// The added run can overlap several runs of the receiver (e.g., bridge two of them):
+		// all of them are merged into one run, and only voxels covered by none are counted.
+		cur_x0 := rle2.start[0]
+		cur_x1 := cur_x0 + rle2.length - 1
+		x0, x1 := cur_x0, cur_x1
+		added := int64(rle2.length)
+		merged := -1 // position of the run that receives the union
+		n := 0
+		for _, rle := range *rles {
 			if rle.start[1] == rle2.start[1] && rle.start[2] == rle2.start[2] {
-				x0 := rle.start[0]
-				x1 := x0 + rle.length - 1
-				cur_x0 := rle2.start[0]
-				cur_x1 := cur_x0 + rle2.length - 1
-				if x1 < cur_x0 {
+				rx0 := rle.start[0]
+				rx1 := rx0 + rle.length - 1
+				if rx1 >= cur_x0 && rx0 <= cur_x1 {
+					ox0, ox1 := rx0, rx1
+					if ox0 < cur_x0 {
+						ox0 = cur_x0
+					}
+					if ox1 > cur_x1 {
+						ox1 = cur_x1
+					}
+					added -= int64(ox1 - ox0 + 1)
+					if rx0 < x0 {
+						x0 = rx0
+					}
+					if rx1 > x1 {
+						x1 = rx1
+					}
+					if merged < 0 {
+						merged = n
+						n++
+					}
 					continue
 				}
-				if x0 > cur_x1 {
-					continue
-				}
-				if x0 > cur_x0 {
-					voxelsAdded += int64(x0 - cur_x0)
-					x0 = cur_x0
-				}
-				if x1 < cur_x1 {
-					voxelsAdded += int64(cur_x1 - x1)
-					x1 = cur_x1
-				}
-				rle.start[0] = x0
-				rle.length = x1 - x0 + 1
-				(*rles)[i] = rle
-				found = true
-				break
 			}
+			(*rles)[n] = rle
+			n++
 		}
-		if !found {
+		if merged < 0 {
 			*rles = append(*rles, rle2)
-			voxelsAdded += int64(rle2.length)
+		} else {
+			*rles = (*rles)[:n]
+			(*rles)[merged] = RLE{Point3d{x0, rle2.start[1], rle2.start[2]}, x1 - x0 + 1}
+		}
+		if added > 0 {
+			voxelsAdded += added
 		}
 	}
 	return
